@@ -1693,10 +1693,38 @@ def r4_command_channel(ctx):
     ctx.floor("C06.R4", "command-channel swallow sites", n, 1)
 
 
+def r2_association(ctx):
+    """The UDP association is bound to the address the control connection really comes from, not to anything the
+    client says about itself: `socks_client_addr` decides which datagrams are the client's (direction inference)."""
+    repo = ctx.repo
+    mk = repo.fn("SOCKS5Server._udp_protocol_creator", SOCKS)
+    n = 0
+    for f in [g for g in repo.all_funcs if g.module is mk.module]:
+        for c in find_calls(f.node, "_udp_protocol_creator", into_defs=False):
+            if not c.args:
+                continue
+            n += 1
+            a = c.args[0]
+            vals = [a]
+            if isinstance(a, ast.Name):
+                vals = [st.value for st in stores(f.node, into_defs=False) if st.path == a.id and st.value is not None] or [a]
+
+            def peer(v):
+                return isinstance(v, ast.Call) and call_attr(v) == "get_extra_info" and v.args and \
+                    isinstance(v.args[0], ast.Constant) and v.args[0].value == "peername"
+            ctx.ob("C06.R2", f"{f.qual}: the UDP association is bound to the control connection's peer address",
+                   all(peer(v) for v in vals), ctx.w(f, c),
+                   f"the protocol is created for {[norm(v) for v in vals]}: an address the client announces in its request "
+                   f"decides whose datagrams are taken for the viewer's - the real viewer becomes an unknown host, or another "
+                   f"host is trusted as the SOCKS client")
+    ctx.floor("C06.R2", "UDP association constructions", n, 1)
+
+
 def run(ctx):
     r1(ctx)
     r2(ctx)
     r2_identity(ctx)
+    r2_association(ctx)
     r3(ctx)
     r3_msgxml(ctx)
     r3_teardown(ctx)
